@@ -332,6 +332,23 @@ func checkC12Value(c c12Case) (ci caseInfo, err error) {
 		}
 	}
 
+	// whatever the outcome is, the factory and a fill of the same position must agree on it
+	{
+		var direct, filled ast.ItemNode
+		pd, _ := try(func() { direct = factory(kind, args...) })
+		pf, _ := try(func() {
+			targs := append([]interface{}(nil), args...)
+			targs[at] = "x"
+			filled = factory(kind, targs...).FillVariables(map[string]interface{}{"x": arg})
+		})
+		if pd != pf {
+			return ci, fmt.Errorf("%s value %v (%s): the factory %s it but filling a variable with it %s it", kind, describeArg(c.Arg), c.Arg.T,
+				map[bool]string{true: "refuses", false: "accepts"}[pd], map[bool]string{true: "refuses", false: "accepts"}[pf])
+		}
+		if !pd && (itemString(direct) != itemString(filled) || !bytes.Equal(direct.ToBytes(), filled.ToBytes())) {
+			return ci, fmt.Errorf("%s value %v (%s): constructed %q but filled %q", kind, describeArg(c.Arg), c.Arg.T, clipStr(itemString(direct), 100), clipStr(itemString(filled), 100))
+		}
+	}
 	var item ast.ItemNode
 	panicked, pmsg := try(func() {
 		if c.ViaFill {
@@ -637,7 +654,11 @@ func TestC12ASCII(t *testing.T) {
 		case 1:
 			c.Bytes = rapid.SliceOfN(rapid.Byte(), 0, 8).Draw(t, "bytes")
 		case 2:
-			c.Bytes = []byte(rapid.SampledFrom([]string{"é", "a\u0080", "\xff", "a\x80b", "日本", " ", "\x7f", "\x00", "a\xc3", "\xc3\xa0"}).Draw(t, "utf"))
+			c.Bytes = []byte(rapid.SampledFrom([]string{"é", "a\u0080", "\xff", "a\x80b", "日本", " ", "\x7f", "\x00", "a\xc3", "\xc3\xa0",
+				"\u0100", "a\u0101b", "\u0141", "\u4e00", "\u0800", "\U00010000", "\U0001F600", "\u017f", "\u0131", "\u2000", "\ufeff"}).Draw(t, "utf"))
+			if rapid.Bool().Draw(t, "randomRune") {
+				c.Bytes = []byte("k" + string(rune(rapid.IntRange(0x80, 0x10FFFF).Draw(t, "rune"))))
+			}
 		default:
 			c.Bytes = []byte(genASCII(t, 5) + string(rune(rapid.IntRange(0x7E, 0x82).Draw(t, "edge"))))
 		}
@@ -765,6 +786,7 @@ func checkC12Name(c c12Name) (ci caseInfo, err error) {
 var nearNames = []string{
 	"", "a", "_", "A1", "a_b", "a[0]", "a[12][3]", "_[0]", "x9[007]",
 	"1a", "9", "a-b", "a.b", "a b", " a", "a ", "a\n", "a\t", "a[", "a[]", "a[1", "a]", "a[x]", "a[1]b", "a[1] [2]", "a[-1]", "a[1.5]", "a[[1]]",
+	"x[+1]", "x[-0]", "x[+0]", "x[ 1]", "x[1 ]", "x[0x1]", "x[1e1]", "x[01]", "x[1_0]", "...[+1]", "...[-0]", "x[１]",
 	"é", "aé", "名前", "a ", "a\x00", "...", "...[0]", "....", "..", ".", "a...", "...a", "[0]", "a[0]...", "<a>", "a>", "\"a\"", "a//b",
 }
 
@@ -778,7 +800,7 @@ func genName(t *rapid.T) string {
 	// a valid name with one character replaced / inserted
 	base := []byte(newNamer(false, true).draw(t))
 	i := rapid.IntRange(0, len(base)).Draw(t, "at")
-	ch := byte(rapid.SampledFrom([]int{' ', '-', '.', '[', ']', '0', '_', 'z', 0x80, '\n', '"', '<', '/'}).Draw(t, "ch"))
+	ch := byte(rapid.SampledFrom([]int{' ', '-', '+', '.', '[', ']', '0', '_', 'z', 0x80, '\n', '"', '<', '/', 'x', 'e'}).Draw(t, "ch"))
 	if i < len(base) && rapid.Bool().Draw(t, "replace") {
 		base[i] = ch
 		return string(base)
